@@ -127,7 +127,7 @@ func checkC(c CaseC) *core.Violation {
 	if !sameValue(got, v) {
 		cls := c.Type.K
 		if cfggen.ShortestDecimalQuirk(c.Val) {
-			cls = "float64-power-of-two-shortest-decimal"
+			return core.V("TokensForValue|wrong-value|float64-power-of-two-shortest-decimal", "TokensForValue(%#v) = %s reads back as %#v", v, clip(string(src), 600), got)
 		}
 		if strings.Contains(fmt.Sprintf("%#v", v), "$${") || strings.Contains(fmt.Sprintf("%#v", v), "%%{") {
 			cls += "|doubled-template-introducer"
